@@ -37,7 +37,9 @@ class _Poison:
 
 
 class CutSpec:
-    def __init__(self, inv, havoc, element=None, exhausted=None, name=''):
+    def __init__(self, inv, havoc, element=None, exhausted=None, name='', iter_src=None, iterable_ok=None):
+        self.iter_src = iter_src        # with `element`: the source text of the iterable expression the contract was written for (ast.unparse form)
+        self.iterable_ok = iterable_ok  # with `element`: (L, value) -> bool, semantic check of the evaluated iterable (preferred where it can be evaluated)
         self.inv = inv          # L(dict of locals) -> Clause
         self.havoc = havoc      # L -> dict name -> havocked value
         self.element = element  # (L, iterable) -> element for the single arbitrary iteration (may assume)
@@ -46,8 +48,9 @@ class CutSpec:
 
 
 class Runtime:
-    def __init__(self, specs, write_sets, fname):
+    def __init__(self, specs, write_sets, fname, iter_srcs=None):
         self.specs = specs
+        self.iter_srcs = iter_srcs or {}
         self.write_sets = write_sets
         self.fname = fname
         self.depth = {}
@@ -74,7 +77,24 @@ class Runtime:
         S.assume(self._bind(self.specs[k].inv, L2))
         return tuple(out) if len(out) != 1 else (out[0],)
 
+    def _check_iterable(self, k, iterable, L):
+        """an `element` hook describes the loop's elements abstractly, so the real iterable is never enumerated: make sure it still IS the iterable the
+        contract talks about (a change of the iterable expression must not go unnoticed).  Mismatch = contract not bindable = undecided."""
+        spec = self.specs[k]
+        if spec.element is None:
+            return
+        if spec.iterable_ok is not None:
+            v = iterable()
+            if not self._bind(spec.iterable_ok, dict(L), v):
+                raise S.Unsupported('loop %d of %s iterates over something its contract does not describe: %r' % (k, self.fname, v))
+        elif spec.iter_src is not None:
+            if _norm(spec.iter_src) != _norm(self.iter_srcs.get(k, '')):
+                raise S.Unsupported('loop %d of %s iterates over `%s`, its contract was written for `%s`' % (k, self.fname, self.iter_srcs.get(k), spec.iter_src))
+        else:
+            raise S.Unsupported('loop %d of %s: a CutSpec with an element hook needs iter_src or iterable_ok' % (k, self.fname))
+
     def iterate(self, k, iterable, L):
+        self._check_iterable(k, iterable, L)
         # demonic: exhausted, or one more arbitrary element
         more = S.boolean(S.cur().fresh('cut%d_more' % k)) if S.symbolic() else False
         if more:
@@ -100,6 +120,13 @@ class Runtime:
     def back_edge(self, k, L):
         S.check('%s:loop%d:inv-step' % (self.fname, k), self._bind(self.specs[k].inv, dict(L)))
         raise PathEnd()
+
+
+def _norm(src):
+    try:
+        return ast.unparse(ast.parse(src.strip(), mode='eval'))
+    except SyntaxError:
+        return src.strip()
 
 
 def _loops_preorder(fnode):
@@ -225,6 +252,7 @@ def cut(fn, specs, dump_dir=None):
     fnode.decorator_list = []
     loops = _loops_preorder(fnode)
     write_sets = {}
+    iter_srcs = {k: ast.unparse(loops[k].iter) for k in specs if k < len(loops) and isinstance(loops[k], ast.For)}
     for k in specs:
         if k >= len(loops):
             raise S.Unsupported('function %s has no loop %d' % (fn.__qualname__, k))
@@ -282,7 +310,7 @@ def cut(fn, specs, dump_dir=None):
     code = compile(tree, src_file + '<cut>', 'exec')
     exec(code, ns)
     g = ns[fnode.name]
-    rt = Runtime(specs, write_sets, fn.__qualname__)
+    rt = Runtime(specs, write_sets, fn.__qualname__, iter_srcs)
     fn.__globals__[_GN[0]] = rt       # the only addition to the module namespace; code uses the LIVE module globals
     newf = types.FunctionType(g.__code__, fn.__globals__, fn.__name__, fn.__defaults__, fn.__closure__)
     newf.__kwdefaults__ = fn.__kwdefaults__
